@@ -3,7 +3,7 @@ SPEC = {
     "theorems": [
         "AM.Ingest.post_defaults", "AM.Ingest.prepare_spec", "AM.Ingest.removeEmpty_spec",
         "AM.Ingest.batch_best_effort", "AM.Ingest.valid_alerts_are_stored", "AM.Ingest.post_ok_iff_all_valid",
-        "AM.Ingest.overlap_keeps_earliest_start", "AM.Ingest.timeout_end_pushed_forward",
+        "AM.Ingest.overlap_keeps_earliest_start", "AM.Ingest.refire_after_end_starts_anew", "AM.Ingest.timeout_end_pushed_forward",
         "AM.Ingest.explicit_past_end_resolves", "AM.Ingest.putValue_identity",
         "AM.Ingest.get_returns_unexpired", "AM.Ingest.get_filter_flags", "AM.Ingest.get_filter_flags_hides_inhibited", "AM.Ingest.gc_only_resolved", "AM.Ingest.put_leaves_others",
     ],
